@@ -1,14 +1,16 @@
 (* C20 - Sigma-separation agrees with d-separation on acyclic graphs; symmetric; adjacent => connected. *)
 From Coq Require Import List Bool.
-From Y0 Require Import Base.ListSet Graph.MixedGraph Graph.DSep Graph.Sigma Proofs.SigmaP Proofs.SigmaSymP.
+From Y0 Require Import Base.ListSet Graph.MixedGraph Graph.DSep Graph.Sigma Proofs.SigmaP Proofs.SigmaSymP Proofs.SigmaAgree2P.
 Import ListNotations.
 
-(* The agreement clause (kept visible): proved below are symmetry and adjacency for ALL mixed graphs; agreement with
-   d-separation on acyclic graphs is evaluated inside Coq on every generated case (Corr/C20.v) and not yet proved. *)
-Definition C20_agreement_statement : Prop :=
-  forall (g : mg nat) a b C, wf g -> is_acyclic g = true -> In a (nodes g) -> In b (nodes g) -> a <> b ->
-     incl C (nodes g) -> ~ In a C -> ~ In b C ->
-     are_sigma_separated false g a b C = d_separated_spec g a b C.
+(* The full first clause: on every well-formed acyclic directed mixed graph, for all nodes a, b outside C, the verdict equals
+   the textbook d-separation in the latent DAG [d_separated_spec] (which C04 proves equal to m-separation). Both directions:
+   a sigma-open enumerated path (its triples may use the detour through a neighbour) expands into an active walk; an active
+   simple path of the latent DAG collapses, dropping the latent nodes, to a sigma-open enumerated path. *)
+Theorem C20_agrees_with_d_separation_on_acyclic_graphs (g : mg nat) a b C :
+  wf g -> is_acyclic g = true -> In a (nodes g) -> In b (nodes g) -> incl C (nodes g) -> ~ In a C -> ~ In b C ->
+  are_sigma_separated false g a b C = d_separated_spec g a b C.
+Proof. exact (sigma_agrees_with_d_separation g a b C). Qed.
 
 (* the verdict is symmetric in the two nodes: every mixed graph, cyclic or not, every conditioning set *)
 Theorem C20_symmetric (g : mg nat) a b C : are_sigma_separated false g a b C = are_sigma_separated false g b a C.
@@ -30,6 +32,7 @@ Theorem C20_old_code_refuted_bow :
     are_sigma_separated true g a b C = true /\ d_separated_spec g a b C = false.
 Proof. exact sigma_old_refuted_bow. Qed.
 
+Print Assumptions C20_agrees_with_d_separation_on_acyclic_graphs.
 Print Assumptions C20_symmetric.
 Print Assumptions C20_adjacent_nodes_are_never_separated.
 Print Assumptions C20_old_code_refuted_collider_with_distant_conditioned_descendant.
